@@ -4,7 +4,10 @@ package handler
 
 // C01 call-site harness: every `site rest h<code>` op is one request through the real BreakerHandler
 // middleware (httptest recorder); the next handler writes the status code named in the op (h0 = writes
-// nothing: implicit 200) and panics if p=1. The breaker BreakerHandler created is recovered from the
+// nothing: implicit 200) and then returns / panics with a string / panics with http.ErrAbortHandler / calls
+// runtime.Goexit (p=0..3). ig=1: the incoming writer already is a *response.WithCodeResponseWriter (what the Trace /
+// Log / Prometheus middlewares outside the breaker install: BreakerHandler then reuses it instead of wrapping);
+// sf=1: the handler also writes a body and flushes (Write / Flush must not disturb the recorded code). The breaker BreakerHandler created is recovered from the
 // middleware's closure (breaker.VerifC01FindBreaker) so that its window can be printed after every request.
 
 import (
@@ -20,6 +23,8 @@ import (
 	"github.com/zeromicro/go-zero/core/breaker"
 	"github.com/zeromicro/go-zero/core/stat"
 	"github.com/zeromicro/go-zero/internal/verifc01"
+	"github.com/zeromicro/go-zero/internal/verifh"
+	"github.com/zeromicro/go-zero/rest/internal/response"
 )
 
 var c01RestSeq atomic.Int64
@@ -27,7 +32,11 @@ var c01RestSeq atomic.Int64
 func TestVerifC01Rest(t *testing.T) {
 	spec := verifc01.SiteSpec{Site: "rest", NoCtx: true,
 		Good: []string{"h0", "h200", "h204", "h301", "h399", "h400", "h404", "h429", "h498", "h499"},
-		Bad:  []string{"h500", "h501", "h502", "h503", "h504", "h599", "h600", "h999"}}
+		Bad:  []string{"h500", "h501", "h502", "h503", "h504", "h599", "h600", "h999"},
+		Flags: func(r *verifh.Rng, c *verifc01.Call) {
+			c.Ignored = r.Chance(1, 3)
+			c.ScanFail = r.Chance(1, 4)
+		}}
 	metrics := stat.NewMetrics("c01")
 	// one BreakerHandler middleware per name (several routes): each has a breaker of its own, created when the
 	// middleware is built; all requests of a name go through the same middleware closure
@@ -64,13 +73,21 @@ func TestVerifC01Rest(t *testing.T) {
 					if code != 0 {
 						w.WriteHeader(code)
 					}
-					if c.Panics {
-						panic(verifc01.PanicValue)
+					if c.ScanFail {
+						_, _ = w.Write([]byte("c01"))
+						if f, ok := w.(http.Flusher); ok {
+							f.Flush()
+						}
 					}
+					c.Unwind()
 				}))
 				rec := httptest.NewRecorder()
 				req := httptest.NewRequest(http.MethodGet, "http://localhost/c01", http.NoBody)
-				h.ServeHTTP(rec, req)
+				var w http.ResponseWriter = rec
+				if c.Ignored {
+					w = response.NewWithCodeResponseWriter(rec)
+				}
+				h.ServeHTTP(w, req)
 				want := code
 				if want == 0 {
 					want = http.StatusOK
